@@ -27,8 +27,10 @@ def dispatch (line : String) : String :=
   match line.trimAscii.toString.splitOn " " with
   | [_, "noop"] => "noop"      -- an oracle-only case: nothing for the model to say
   | "C15" :: rest => SafeLong.handle rest
+  | "C07" :: "emit" :: rest => Emit.handle Gen.Keywords.escaped ("emit" :: rest)
   | "C07" :: rest => Uri.handle rest
   | "C01" :: rest => WrapIO.handle rest
+  | "C05" :: "canon" :: rest => Wire.handle ("canon" :: rest)
   | "C05" :: rest => WrapIO.handle rest
   | "C13" :: rest => AnyIO.handle rest
   | "C10" :: rest => EnumUnion.handle rest
